@@ -759,7 +759,8 @@ class MergeFlow(Engine):
         if getattr(self, 'collect_apply', False):
             # positions were put aside in a container for a later loop: findings of the rules that relate a lookup, its report
             # and its edit within one loop iteration are not trustworthy here - they are withheld and the class gets no verdict
-            held = [k for k, f in self.findings.items() if f.rule in COLLECT_APPLY_RULES]
+            relevant = {'VALIDATE-BEFORE-MUTATE'} if self.envelope_only else COLLECT_APPLY_RULES     # (the envelope-only pass is consulted for that rule alone)
+            held = [k for k, f in self.findings.items() if f.rule in relevant]
             if held:
                 rules = sorted({self.findings[k].rule for k in held})
                 for k in held:
